@@ -182,6 +182,11 @@ class PathRun:
             else:
                 for i in range(self.cfg["steps"]):
                     self.step(self.gen_op())
+                if self.rng.random() < 0.2:
+                    # the account is emptied with ordinary requests: whatever gets tidied up with
+                    # the collections, the root directory itself and everything above it stay
+                    for p in ("/user/calendars/", "/user/contacts/", "/user/inbox/"):
+                        self.step({"op": "req", "method": "DELETE", "path": p, "benign": True, "salt": 0})
         finally:
             nreq = w.nreq
             FS.observers = []
@@ -362,8 +367,16 @@ class PathRun:
                     continue  # a path with NUL never reaches the kernel
                 zone, rp = self.classify(p)
                 if zone == "root":
+                    if mut and rp == self.arena.root and kind in ("rmdir", "rename", "replace", "unlink", "remove"):
+                        # the root's own entry lives in its parent directory
+                        self.add("C13.mutation-outside-root", "%s %s -> %s: %s of the root directory itself" % (op["method"], target, status, kind), dict(sigbase, zone="root-entry"), flagged)
                     continue
                 if zone == "tmp":
+                    # anonymous scratch files are fine there (they never get a name); a *named* file
+                    # is user data created outside the root, however briefly it lives
+                    if kind in ("creat", "trunc", "write", "rename", "replace", "mkdir", "link", "symlink"):
+                        self.count("tmp_zone_named." + kind)
+                        self.add("C13.user-data-in-temp-dir", "%s %s -> %s: %s of <tmp>/%s" % (op["method"], target, status, kind, os.path.basename(rp)), dict(sigbase, zone="tmp"), flagged)
                     continue
                 if zone == "system":
                     if mut:
